@@ -49,6 +49,8 @@ type CertSpec struct {
 	OCSPSigner bool // EKU = OCSPSigning (delegated responder)
 	SelfSigned bool
 	ExtraExts  []pkix.Extension
+	RawEKU     []asn1.ObjectIdentifier // when set, written as a raw EKU extension
+	RawEKUCrit bool
 }
 
 // Cert is an issued certificate together with its key.
@@ -119,6 +121,9 @@ func Issue(spec *CertSpec, parent *Cert) (*Cert, error) {
 			Id: oidExtKeyUsage, Critical: true,
 			Value: mustMarshal([]asn1.ObjectIdentifier{oidEKUTimeStamping}),
 		})
+	}
+	if len(spec.RawEKU) > 0 {
+		tmpl.ExtraExtensions = append(tmpl.ExtraExtensions, pkix.Extension{Id: oidExtKeyUsage, Critical: spec.RawEKUCrit, Value: mustMarshal(spec.RawEKU)})
 	}
 	if spec.OCSPSigner {
 		tmpl.ExtKeyUsage = append(tmpl.ExtKeyUsage, x509.ExtKeyUsageOCSPSigning)
